@@ -78,12 +78,13 @@ Fixpoint last_out (w : W) (ops : list opn) (o : list nat) : W * list nat :=
   | [] => (w, o)
   | x :: r => let (w1, y) := step w x in last_out w1 r (ocode y)
   end.
-Definition node (ml : nat) (ops : list opn) : N :=
-  let (w, o) := last_out (init ml) ops [0] in encode (o ++ obs w).
+Definition node (fs0 : option (archive nat nat)) (ml : nat) (ops : list opn) : N :=
+  let (w, o) := last_out (init fs0 ml) ops [0] in encode (o ++ obs w).
 
 (* true = model and implementation agree at this node *)
-Definition chk (ml : nat) (ops : list opn) (expected : N) : bool :=
-  N.eqb (node ml ops) expected.
+(* fs0 = the archive an earlier life left under the same name (None: nothing) *)
+Definition chk (fs0 : option (archive nat nat)) (ml : nat) (ops : list opn) (expected : N) : bool :=
+  N.eqb (node fs0 ml ops) expected.
 
 (* images of interrupted writes: load must refuse them *)
 Definition chk_garbage : bool :=
@@ -114,7 +115,7 @@ Fixpoint list_eqbN (a b : list N) : bool :=
   | _, _ => false
   end.
 (* expected observations are given as indices into a table of distinct numbers *)
-Definition chk_tree (ml : nat) (prefix : list opn) (depth : nat)
+Definition chk_tree (fs0 : option (archive nat nat)) (ml : nat) (prefix : list opn) (depth : nat)
            (tbl : list N) (idxs : list nat) : bool :=
-  let (w, o) := last_out (init ml) prefix [0] in
+  let (w, o) := last_out (init fs0 ml) prefix [0] in
   list_eqbN (tree depth w o (counters prefix)) (map (fun i => nth i tbl 0%N) idxs).
